@@ -875,6 +875,15 @@ func (x *Exec) evalCall(e *CE, env *Env) TV {
 		a := arg(0).V.(IfaceV)
 		t := x.w.resolveType(typeTextOf(e.Args[1]), env.pkg)
 		return TV{Sc{c.Eq(a.Tag, x.typeID(t))}, boolT}
+	case "tagof": // the dynamic type of an interface value as a number (0: nil interface)
+		a := arg(0).V.(IfaceV)
+		return TV{Sc{a.Tag}, intT}
+	case "tagid": // the number of a named type: tagid(T) == tagof(x) iff typeis(x, T)
+		if txt := typeTextOf(e.Args[0]); txt == "bytes" { // (the contract grammar has no slice type syntax)
+			return TV{Sc{x.typeID(types.NewSlice(types.Typ[types.Uint8]))}, intT}
+		}
+		t := x.w.resolveType(typeTextOf(e.Args[0]), env.pkg)
+		return TV{Sc{x.typeID(t)}, intT}
 	case "unbox":
 		a := arg(0).V.(IfaceV)
 		t := x.w.resolveType(typeTextOf(e.Args[1]), env.pkg)
